@@ -149,7 +149,7 @@ def run(ctx):
             for q, mval in res["mass"].items():
                 evaluations += 1
                 stats["states_mass_checked"] += 1
-                if abs(mval - 1.0) > 1e-9:
+                if not (abs(mval - 1.0) <= 1e-9):     # `not <=` so that nan is reported
                     semantic.append(_viol(c, hs, "normalised", q, {"state": q, "arc_weights_plus_final": mval}))
                 else:
                     traces += 1
